@@ -4,7 +4,7 @@
    Language: a string belongs to the PEP 440 version language iff it is the rendering of a well-formed spelling (parse tree). *)
 From Coq Require Import List Arith NArith Bool Lia.
 Import ListNotations.
-Require Import VParse VComplete VTop VTop2 VDec Py VMeaning SpecModel SpecParse SpecSound SpecContains SpecSem SpecLink VWf VKeyEq VAscii VGnfExists SpecComplete.
+Require Import VParse VComplete VTop VTop2 VDec Py VMeaning SpecModel SpecParse SpecSound SpecContains SpecSem SpecLink VWf VKeyEq VAscii VGnfExists SpecComplete VCaseFold VGnfParsed.
 Open Scope N_scope.
 
 Definition In_version_language (s : str) : Prop := exists sp, wf_spelling sp /\ render sp = s.
@@ -63,3 +63,41 @@ Proof.
   - intros [sp E]. exact (C12_specifier_sound s sp E).
 Qed.
 Print Assumptions C12_specifier_accepts_exactly_the_language.
+
+(* 7. case-insensitive: changing the case of ASCII letters (any character map f with lc (f c) = lc c; it necessarily fixes every other character)
+      never changes acceptance - proved on the scanner: scanning map f s yields the tree of s with f applied to every piece of text *)
+Theorem C12_version_case_closure (f : char -> char) s : (forall c, lc (f c) = lc c) ->
+  ((exists v, Version s = Some v) <-> (exists v, Version (map f s) = Some v)).
+Proof. intros Hf. exact (Version_accepts_map f Hf s). Qed.
+Print Assumptions C12_version_case_closure.
+Theorem C12_version_case_insensitive s t : Forall2 (fun c d => lc c = lc d) s t ->
+  ((exists v, Version s = Some v) <-> (exists v, Version t = Some v)).
+Proof. exact (Version_case_insensitive s t). Qed.
+Print Assumptions C12_version_case_insensitive.
+Theorem C12_scanner_commutes_with_case (f : char -> char) s : (forall c, lc (f c) = lc c) ->
+  parse_spelling (map f s) = option_map (map_sp f) (parse_spelling s).
+Proof. intros Hf. exact (parse_spelling_map f Hf s). Qed.
+Print Assumptions C12_scanner_commutes_with_case.
+
+(* 8. ASCII only: one character that is neither whitespace nor ASCII (e.g. U+017F, U+0131, U+0130, U+212A, an Arabic-Indic or full-width digit)
+      anywhere in the string makes Version reject it *)
+Theorem C12_version_non_ascii_rejected s c : In c s -> is_ws c = false -> is_ascii c = false -> Version s = None.
+Proof. exact (non_ascii_rejected s c). Qed.
+Print Assumptions C12_version_non_ascii_rejected.
+
+(* 9. the tree the scanner picks among the derivations of an accepted string is the greedy-normal-form one, and it is unique *)
+Theorem C12_version_unique_derivation s sp : parse_spelling s = Some sp ->
+  gnf sp = true /\ render sp = s /\ forall sp', gnf sp' = true -> render sp' = s -> sp' = sp.
+Proof. exact (gnf_reading_unique s sp). Qed.
+Print Assumptions C12_version_unique_derivation.
+
+(* non-vacuity: " V1!2.0-PREVIEW_3.r.dev+Ab-01\n" is in the language, its upper/lower-cased variants too; "1.0ſ" and "1.١" are rejected;
+   "==1.0.*" and "~=1.0" are accepted specifiers, "~=1" and ">=1.0+a" are not *)
+Definition c12_check : bool :=
+  let s := [160;86;49;33;50;46;48;45;80;82;69;86;73;69;87;95;51;46;114;46;100;101;118;43;65;98;45;48;49;10] in
+  (match Version s, Version (map lc s) with Some _, Some _ => true | _, _ => false end) &&
+  (match Version [49;46;48;383], Version [49;46;1633] with None, None => true | _, _ => false end) &&
+  (match Specifier [61;61;49;46;48;46;42], Specifier [126;61;49;46;48] with Some _, Some _ => true | _, _ => false end) &&
+  (match Specifier [126;61;49], Specifier [62;61;49;46;48;43;97] with None, None => true | _, _ => false end).
+Example C12_nonvacuous : c12_check = true.
+Proof. vm_compute. reflexivity. Qed.
